@@ -615,3 +615,117 @@ def run_r6(prog, res):
                                 "the object can be reclaimed while compiled code still points at it" % (fn.name, txt[:60]),
                                 unit=fn.unit.display))
     return stat
+
+
+# ------------------------------------------------------------------ R4: the VM publishes `top` before collection points
+
+def run_r4(prog, res, cg):
+    """In sexp_apply the marker sees the stack only up to sexp_context_top(ctx) (Stack row: slots are
+    counted by the `top` field).  Track d = published_top - top through each opcode's case, starting
+    unknown at the dispatch; at every call that may reach the allocator require d known and >= 0."""
+    from rules.c03 import top_delta
+    stat = res.stat("C02.R4", "VM: sexp_context_top(ctx) has been set to at least the current `top` before every call that "
+                    "may allocate", floor=40)
+    fn = prog.func("sexp_apply")
+    if fn is None:
+        raise AnalysisBroken("anchor vanished: sexp_apply")
+    topv = [i for i, v in enumerate(fn.vars) if v["n"] == "top" and v["k"] == "l"][0]
+    maygc = cg.reaches_any({"sexp_alloc", "sexp_gc"})
+    enum = {v: n for n, v in __import__("tables").enum_values(prog, const_prefix="SEXP_OP_NOOP")}
+
+    def publish(e):
+        """sexp_context_top(ctx) = top + k  ->  k ; other store to it -> 'unknown'; else None"""
+        nd = fn.nodes[e]
+        if nd["k"] != "bin" or nd["o"] != "=":
+            return None
+        l = fn.strip(nd["c"][0])
+        if fn.nodes[l]["k"] != "mem" or fn.nodes[l]["o"] != "top":
+            return None
+        root, path = fn.mempath(l)
+        if path != ["value", "stack", "top"]:
+            return None
+        r = fn.strip(nd["c"][1])
+        rn = fn.nodes[r]
+        if rn["k"] == "ref" and rn.get("d") == topv:
+            return 0
+        if rn["k"] == "un" and rn["o"] in ("pre--", "pre++", "post--", "post++"):
+            x = fn.strip(rn["c"][0])
+            if fn.nodes[x]["k"] == "ref" and fn.nodes[x].get("d") == topv:
+                # the element for the inc/dec itself has already shifted `top`; the stored value is the
+                # new top for pre-forms and the old one for post-forms
+                return 0 if rn["o"].startswith("pre") else (1 if rn["o"] == "post--" else -1)
+        if rn["k"] == "bin" and rn["o"] in ("+", "-"):
+            a, b = fn.strip(rn["c"][0]), fn.strip(rn["c"][1])
+            if fn.nodes[a]["k"] == "ref" and fn.nodes[a].get("d") == topv and fn.const_val(b) is not None:
+                return fn.const_val(b) if rn["o"] == "+" else -fn.const_val(b)
+        return "unknown"
+
+    sw = None
+    for b in fn.blocks.values():
+        if b.term == "SwitchStmt":
+            n = sum(1 for s in b.succs if s is not None and s >= 0 and fn.blocks[s].lk == "case")
+            if sw is None or n > sw[1]:
+                sw = (b, n)
+    sw = sw[0]
+    case_of = {}
+    for s in sw.succs:
+        if s is not None and s >= 0 and fn.blocks[s].lk == "case" and fn.blocks[s].clo is not None:
+            case_of[s] = fn.blocks[s].clo
+    labels = {b.id for b in fn.blocks.values() if b.lk == "label"}
+    reported = set()
+    for start, code in sorted(case_of.items()):
+        opname = enum.get(code, str(code))
+        seen = set()
+        work = [(start, "?")]
+        while work:
+            bid, d = work.pop()
+            if (bid, d) in seen or len(seen) > 4000:
+                continue
+            seen.add((bid, d))
+            b = fn.blocks[bid]
+            cur = d
+            for e in b.elems:
+                p = publish(e)
+                if p is not None:
+                    cur = p if p != "unknown" else "?"
+                    continue
+                td = top_delta(fn, e, topv)
+                if td == "abs":
+                    cur = "?"
+                elif td is not None and cur != "?":
+                    cur -= td
+                nd = fn.nodes[e]
+                if nd["k"] == "call":
+                    name = nd.get("o")
+                    tgt = cg.resolve(fn.unit, name) if name else None
+                    gc = (tgt is not None and tgt in maygc) or (name in ("sexp_alloc_tagged_aux",)) or (not name)
+                    if not gc:
+                        continue
+                    stat.sites += 1
+                    key = (opname, name or "indirect call", fn.line(e))
+                    if key in reported:
+                        continue
+                    reported.add(key)
+                    stat.obligations += 1
+                    if cur != "?" and cur >= 0:
+                        stat.discharged += 1
+                        stat.sample({"opcode": opname, "call": name or "indirect", "published_minus_top": cur, "where": fn.where(e)}, limit=4)
+                    else:
+                        res.add(Finding("C02", "R4.top-not-published", "sexp_apply", "%s: %s" % (opname, name or "indirect call"),
+                                        fn.where(e), "in the VM case %s the call to %s may allocate, but sexp_context_top(ctx) %s: "
+                                        "the collector marks the stack only up to the published top, so operands above it are "
+                                        "invisible to a collection triggered inside the call"
+                                        % (opname, name or "a function pointer",
+                                           "has not been set since the instruction was dispatched" if cur == "?" else
+                                           "is %d below the current top" % -cur), unit="vm.c"))
+            if b.ln and b.ln.startswith("goto:"):
+                continue
+            for s in b.succs:
+                if s is None or s < 0 or s == fn.exit or s == sw.id:
+                    continue
+                if s in case_of and s != start:
+                    continue
+                if fn.blocks[s].lk == "label" and fn.blocks[s].ln == "end_loop":
+                    continue        # leaving the interpreter loop: no operands are live any more
+                work.append((s, cur))
+    return stat
